@@ -163,6 +163,8 @@ PipelineVerdict(post, children) ==
     \cup V(res.errkind # "panic", "C13_panic")
     \* ---- C08 / C18 for every stage that started
     \cup V(\A i \in 1..Len(stages) : NoLeakStage(stages[i]), "C08_no_pipe_end_leaks")
+    \* (C13's "and nothing else": a command holds no further copy of a connecting pipe or of the shared stderr sink)
+    \cup V(\A i \in 1..Len(stages) : NoLeakStage(stages[i]), "C13_no_further_copies_of_the_pipeline_pipes")
     \cup V(\A i \in 1..Len(stages) : stages[i].mask_empty /\ ~stages[i].sigpipe_ignored, "C18_clean_signal_state_in_stage")
     \* ---- C14: a stage cannot be started
     \cup V(FailAt >= 0 => ~res.ok /\ res.errkind = "io" /\ res.errno = 2, "C14_error_returned")
